@@ -33,4 +33,5 @@ done <<LIST
 25 ./pubsub/ TestDemo25QueueBlockingAddThenClose
 26 ./srv/ TestDemo26StartReturnsNilOnce
 28 ./dt/ TestDemo28IsSortedAdjacentPairs
+29 ./srv/ TestDemo29GroupKeepsMembersRunning
 LIST
